@@ -12,6 +12,8 @@ CLAUSES = {'model-behaviour-differs', 'equal-models-behave-differently', 'lifecy
            'model-generator-differs', 'model-generator-presence-differs', 'equal-generators-differ',
            'wrong-exception-class', 'expected-error-but-call-returned', 'unexpected-exception', 'result-differs'}
 
+ECHO_SOURCES = ()
+
 
 def relevant(clause, shape):
     if shape.startswith(('GlobalSeed', 'GlobalDraw', 'Dataset', 'Fit')):
